@@ -1,6 +1,14 @@
 /-
   C05 — Local time follows the zone data: offsets, gaps and folds.
-  Property statements only (proofs in Proofs/TzLookupL.lean).
+  Property statements only (proofs in Proofs/TzLookupL.lean; TzLookupM.lean: what holds without
+  separation; TzYearlyL.lean: the 400-year check of the year-by-year hypotheses; TzGlueL.lean: the
+  user-visible layer).
+
+  Domain of the wall-clock clauses.  They are proved exactly on `WellSeparated ∧ JoinSeparated` zones with
+  `RuleYearly` rules (all decidable per zone; `ruleYearly_of_B`) for every reading but the property's
+  excepted seconds (`NoBoundary'`).  Outside `WellSeparated` they are FALSE, in the model and in the real
+  crate (`not_separated_counterexample`, `not_separated_second_candidate_counterexample`); what survives
+  there is `from_local_earliest_sound`.  The harness judges those zones under a distinct message prefix.
 
   Model: `Chrono.M.TzL` (Model/TzLookup.lean) mirrors timezone.rs / rule.rs / the glue of unix.rs.
   Specification: `Chrono.Spec.Zone` (Spec/ZoneSpec.lean): proleptic Gregorian day count, POSIX rule
